@@ -144,6 +144,7 @@ class PathCtx:
         self.guards = []          # guards of the speculative branches being executed
         self.speculating = 0
         self.alts = []            # alternative prefixes discovered on this path
+        self.tainted = False      # an obligation on this path was not discharged (its goal was assumed)
         self.local_fresh = {}     # containers allocated on this path: str(ref) -> ref
         self.escaped = set()      # str(ref) of references that were stored or passed on
         self.trace = []
